@@ -17,8 +17,11 @@ def main():
 
     r = h_store.reads_leave_no_trace({}, {})
     violations = [{"what": r["detail"], "inputs": r.get("inputs")}] if r.get("reproduced") else []
-    print(json.dumps({"scope": "16 leftover states x {bare, cache-wrapped} local store x (8 read operations + 2 stage-restricted evaluations + 1 full evaluation): on-disk snapshot unchanged, answers from the committed state",
-                      "evaluations": 16 * 2 * 11, "distinct_nontrivial": 16 * 2 * 11, "rule": "one case per (leftover state, store, operation)", "samples": [{"leftovers": ["tmp_link_of_committed_path"], "operation": "fetch_paths(['/p'])"}],
+    r2 = h_store.restricted_then_full({}, {})
+    if r2.get("reproduced"):
+        violations.append({"what": r2["detail"], "inputs": r2.get("inputs")})
+    print(json.dumps({"scope": "16 leftover states x {bare, cache-wrapped} local store x (8 read operations + 2 stage-restricted evaluations + 1 full evaluation): on-disk snapshot unchanged, answers from the committed state; 3 store kinds x 7 delicate values x 5 stage prefixes: a full evaluation after the restricted run returns the value of plain execution",
+                      "evaluations": 16 * 2 * 11 + 105, "distinct_nontrivial": 16 * 2 * 11 + 105, "rule": "one case per (leftover state, store, operation)", "samples": [{"leftovers": ["tmp_link_of_committed_path"], "operation": "fetch_paths(['/p'])"}],
                       "violations": violations, "known_hits": []}))
 
 
